@@ -68,7 +68,9 @@ def main():
             fails.sort(key=lambda f: len(json.dumps(f['case'], default=str)))
             kept, classes = [], {}
             for f in fails:
-                cls = f.get('class') or (f.get('observed') or '')[:40]
+                # (the boolean flags are the witnesses of listed findings: a failure with a finding's flag must never stand in for,
+                #  and thereby hide, a failure of the same class without it)
+                cls = (f.get('class') or (f.get('observed') or '')[:40], tuple(sorted((k, v) for k, v in f.items() if isinstance(v, bool))))
                 if classes.get(cls, 0) >= 1:
                     continue
                 classes[cls] = classes.get(cls, 0) + 1
